@@ -619,6 +619,21 @@ const handlers = {
     return { steps }
   },
 
+  // C13, report/link consistency: many small bundles, each created once with empty data; returns the rendered text
+  link_probe(req) {
+    const texts = (list, out) => { for (const n of list) { if (n.k === 't') out.push(String(n.text)); else if (n.kids) texts(n.kids, out) } return out }
+    return {
+      results: req.items.map((it) => {
+        try {
+          const G = loadBundle(it.bundle)
+          const inst = instantiate(G, it.entry)
+          inst.w.create({})
+          return { text: texts(dumpRoot(inst.root), []).join('|') }
+        } catch (e) { return { error: String(e && e.stack || e).split('\n').slice(0, 3).join(' | ') } }
+      }),
+    }
+  },
+
   // C07: binding map
   bmap(req) {
     const pool = makePool()
